@@ -111,7 +111,8 @@ Definition spherical_axis (hypot : T -> T -> T) (r theta phi : T) (axis : list T
 
 (** Angle(v1, v2) = acos(v1 * v2 / (v1.Norm() * v2.Norm()))   (operator*(Vector) is Dot: differing dimensions exit) *)
 Definition angle (v1 v2 : list T) : res T :=
-  rbind (dot v1 v2) (fun d => Ok (nacos Ops (d / (vnorm v1 * vnorm v2)))).
+  (* acos(std::max(std::min(cosine, 1.0), -1.0)): the quotient of (anti)parallel vectors can round an ulp past +-1 *)
+  rbind (dot v1 v2) (fun d => Ok (nacos Ops (nmax Ops (nmin Ops (d / (vnorm v1 * vnorm v2)) (n1 Ops)) (nneg Ops (n1 Ops))))).
 
 (** ** Call histories of the argument objects.
 
